@@ -399,6 +399,8 @@ func runC08(p *Program, r *Report) {
 	checkEmptyForestHasNoPositions(p, r, "R08e", e)
 	checkTwinParentInOrder(p, r, "R08f")
 	checkZeroRowsIsNotEmpty(p, r, "R08i", []string{"(*Proof).Undo", "(*Proof).Update"})
+	r.Rule("R08j", "ROWS-NOT-SMALLER-THAN-THE-COUNT'S: no call passes a leaf count n together with the height of a smaller forest, TreeRows(n - k)")
+	checkRowsNotSmallerThanCounts(p, r, "R08j")
 	r.Rule("R08h", "SLOT-CACHE-NOT-PERMUTED: a slice filled slot by slot from another list is not read again after that list (or the struct holding it) was sorted or handed to a method that may insert or delete")
 	checkSlotCacheNotPermuted(p, r, "R08h", []string{"(*Proof).Undo", "(*Proof).Update"})
 
